@@ -15,8 +15,10 @@ import (
 	"strconv"
 	"testing"
 
+	"github.com/tendermint/tendermint/proxy"
 	sm "github.com/tendermint/tendermint/state"
 	"github.com/tendermint/tendermint/store"
+	"github.com/tendermint/tendermint/types"
 )
 
 func TestVerifC18Consensus(t *testing.T) {
@@ -28,6 +30,14 @@ func TestVerifC18Consensus(t *testing.T) {
 	hook := func(bs *store.BlockStore, exec *sm.BlockExecutor, retain int64) error {
 		cs := &State{blockStore: bs, blockExec: exec}
 		_, err := cs.pruneBlocks(retain)
+		return err
+	}
+	// restart of a node that crashed between the application's Commit and stateStore.Save: the
+	// production Handshaker decides what to replay (here: the last block through newMockProxyApp)
+	store.C18Recover = func(bs *store.BlockStore, ss sm.Store, state sm.State, genDoc *types.GenesisDoc,
+		pa proxy.AppConns, appHeight int64, appHash []byte) error {
+		h := NewHandshaker(ss, state, bs, genDoc)
+		_, err := h.ReplayBlocks(state, appHash, appHeight, pa)
 		return err
 	}
 	if err := store.C18Main(inPath, outDir+"/consensus.ndjson", seed, hook, t.Logf); err != nil {
